@@ -15,11 +15,13 @@ package main
 //	          `const` at the start of a line (members of `const (`/`var (` blocks too), methods as Recv.Name,
 //	          struct fields as Type.field. A `*` stands for a part printed by a template action
 //	          (`Parse*`, `At*`, `*State`); names that consist of an action only are not recorded.
-//	c17Defs   ⟨name, file, define block, kind, guard⟩ one per declaration site
-//	c17Uses   ⟨name, file, define block, guard⟩ occurrences of such an identifier elsewhere in a file of the
+//	c17Tmpls  the define blocks that contain declarations or uses (blocks of go_shared count as their caller)
+//	c17Groups per identifier: its declaration sites ⟨name, file, define block, kind, guard⟩ and its use sites
+//	          ⟨name, file, define block, guard⟩ = occurrences of the identifier elsewhere in a file of the
 //	          same generated package: plain identifiers, `{{pkg "x"}}Name` / `{{template "tokenPkg" .}}Name`
 //	          (other package), `v.member` where v is the receiver or a parameter of the enclosing function
 //	          whose type is a template-declared type. Comments, string and rune literals are skipped.
+//	c17DefSigs one readable line per declaration site (pinned by the expectation table)
 //	c17Hashes hashes of gen/templates.go declarations the expectations rely on
 //
 // Guards: `and`/`or`/`not` are structural, everything else is an atom. A pipeline that mentions the range
@@ -866,7 +868,7 @@ type c17Tok struct {
 	name       string // with `*` for adjacent action output
 	pkg        string // "" = current package, else the {{pkg}} qualifier
 	afterDot   bool
-	qual       string // identifier before the dot ("" if none / not a plain identifier)
+	quals      []string // a.b.c: for c the chain [a b] (nil when the chain does not start at a plain identifier)
 	lineStart  bool
 }
 
@@ -914,17 +916,39 @@ func (u *c17Buf) tokens() []c17Tok {
 			}
 		case pc == '.':
 			t.afterDot = true
-			qc, qi := u.prevReal(pi)
-			if c17IsIdentByte(qc) {
+			// walk back over ident(.ident)*
+			var chain []string
+			dot := pi
+			ok := true
+			for {
+				qc, qi := u.prevReal(dot)
+				if !c17IsIdentByte(qc) {
+					ok = false
+					break
+				}
 				k := qi
 				for k >= 0 && c17IsIdentByte(b[k]) {
 					k--
 				}
-				// the qualifier must not itself be a selector or a generated name
-				bc, _ := u.prevReal(k + 1)
-				if bc != '.' && bc != 0 && bc != 2 && !(k >= 0 && b[k] == 3 && c17IsIdentByte(bc)) {
-					t.qual = string(b[k+1 : qi+1])
+				if k >= 0 && b[k] == 3 { // a name glued from several pieces
+					if bc, _ := u.prevReal(k + 1); c17IsIdentByte(bc) || bc == 0 {
+						ok = false
+						break
+					}
 				}
+				chain = append([]string{string(b[k+1 : qi+1])}, chain...)
+				bc, bi := u.prevReal(k + 1)
+				if bc == '.' {
+					dot = bi
+					continue
+				}
+				if bc == 0 || bc == 2 {
+					ok = false
+				}
+				break
+			}
+			if ok {
+				t.quals = chain
 			}
 		}
 		// start of line?
@@ -946,12 +970,13 @@ var c17Keywords = map[string]bool{"func": true, "type": true, "var": true, "cons
 
 // c17Scan finds the declarations (pass 1) and, given the declared names of the package, the uses (pass 2).
 type c17Scanner struct {
-	u     *c17Buf
-	toks  []c17Tok
-	segs  []c17Seg
-	pkg   string
-	file  int
-	isDef map[int]bool // token index → part of a declaration header
+	u         *c17Buf
+	toks      []c17Tok
+	segs      []c17Seg
+	pkg       string
+	file      int
+	isDef     map[int]bool      // token index → part of a declaration header
+	fieldType map[string]string // Type.field → template-declared type name of the field (`T` or `*T`)
 }
 
 func (s *c17Scanner) site(t c17Tok, pkg, name, kind string) c17Site {
@@ -990,6 +1015,7 @@ func (s *c17Scanner) tail(i int) string { // text from the end of token i to the
 func (s *c17Scanner) defs() []c17Site {
 	var out []c17Site
 	s.isDef = map[int]bool{}
+	s.fieldType = map[string]string{}
 	toks := s.toks
 	for i := 0; i < len(toks); i++ {
 		t := toks[i]
@@ -1048,6 +1074,9 @@ func (s *c17Scanner) defs() []c17Site {
 					if first && !toks[j].afterDot && j+1 < len(toks) && s.sameLine(j, j+1) && !c17Keywords[toks[j].name] {
 						s.isDef[j] = true
 						out = append(out, s.site(toks[j], s.pkg, toks[i+1].name+"."+toks[j].name, "field"))
+						if gap := strings.NewReplacer(" ", "", "\t", "", "*", "").Replace(s.between(j, j+1)); gap == "" && toks[j+1].pkg == "" {
+							s.fieldType[toks[i+1].name+"."+toks[j].name] = toks[j+1].name
+						}
 					}
 					j++
 				}
@@ -1097,7 +1126,7 @@ func (s *c17Scanner) defs() []c17Site {
 }
 
 // uses: declared maps pkg → name → kinds.
-func (s *c17Scanner) uses(declared map[string]map[string]bool, types map[string]map[string]bool) []c17Site {
+func (s *c17Scanner) uses(declared map[string]map[string]bool, types map[string]map[string]bool, fieldTypes map[string]map[string]string) []c17Site {
 	var out []c17Site
 	toks := s.toks
 	scope := map[string]string{} // variable → template-declared type of the current function
@@ -1135,7 +1164,18 @@ func (s *c17Scanner) uses(declared map[string]map[string]bool, types map[string]
 				out = append(out, s.site(t, pkg, t.name, "use"))
 			}
 		case t.afterDot:
-			if tp, ok := scope[t.qual]; ok && t.qual != "" {
+			if len(t.quals) == 0 {
+				break
+			}
+			tp, ok := scope[t.quals[0]]
+			for _, q := range t.quals[1:] {
+				if !ok {
+					break
+				}
+				tp, ok = fieldTypes[s.pkg][tp+"."+q]
+				ok = ok && types[s.pkg][tp]
+			}
+			if ok {
 				if n := tp + "." + t.name; declared[s.pkg][n] {
 					out = append(out, s.site(t, s.pkg, n, "use"))
 				}
@@ -1252,8 +1292,7 @@ func extractC17(p *Program, w *Section) {
 	w.Declare("c17Files", "TmplFile")
 	w.Declare("c17Names", "TmplName")
 	w.Declare("c17Tmpls", "String")
-	w.Declare("c17Defs", "TmplDef")
-	w.Declare("c17Uses", "TmplUse")
+	w.Declare("c17Groups", "TmplGroup")
 	w.Declare("c17Hashes", "TmplHash")
 	w.Declare("c17DefSigs", "String")
 	w.Declare("c17Problems", "String")
@@ -1453,8 +1492,17 @@ func extractC17(p *Program, w *Section) {
 			types[d.pkg][d.name] = true
 		}
 	}
+	fieldTypes := map[string]map[string]string{}
 	for _, sc := range scans {
-		allUses = append(allUses, sc.s.uses(declared, types)...)
+		if fieldTypes[sc.s.pkg] == nil {
+			fieldTypes[sc.s.pkg] = map[string]string{}
+		}
+		for k, v := range sc.s.fieldType {
+			fieldTypes[sc.s.pkg][k] = v
+		}
+	}
+	for _, sc := range scans {
+		allUses = append(allUses, sc.s.uses(declared, types, fieldTypes)...)
 	}
 
 	// numbering
@@ -1580,10 +1628,28 @@ func extractC17(p *Program, w *Section) {
 	c17DefOrdered(w, "c17Names", "TmplName", nameItems)
 	w.Comment("Define blocks that contain declarations or uses (`main` = top level of a file template); position = id.")
 	c17DefOrdered(w, "c17Tmpls", "String", tmplItems)
-	w.Comment("Declaration sites; ⟨name id, file id, define block id, kind, guard⟩.")
-	w.Def("c17Defs", "TmplDef", defItems)
-	w.Comment("Use sites (de-duplicated); ⟨name id, file id, define block id, guard⟩.")
-	w.Def("c17Uses", "TmplUse", useItems)
+	w.Comment("Declaration and use sites grouped by identifier (position = name id): ⟨name id, declaration sites ⟨name id, file id,\ndefine block id, kind, guard⟩, use sites (de-duplicated) ⟨name id, file id, define block id, guard⟩⟩.")
+	defsOf := map[int][]string{}
+	usesOf := map[int][]string{}
+	for i, d := range allDefs {
+		n := nameID[d.pkg+"\x00"+d.name]
+		defsOf[n] = append(defsOf[n], defItems[i])
+	}
+	for i, u := range allUses {
+		n := nameID[u.pkg+"\x00"+u.name]
+		usesOf[n] = append(usesOf[n], useItems[i])
+	}
+	var groupItems []string
+	for n := range names {
+		ds := append([]string(nil), defsOf[n]...)
+		sort.Strings(ds)
+		ds = slicesCompact(ds)
+		us := append([]string(nil), usesOf[n]...)
+		sort.Strings(us)
+		us = slicesCompact(us)
+		groupItems = append(groupItems, fmt.Sprintf("⟨%d,\n    [%s],\n    [%s]⟩", n, strings.Join(ds, ",\n     "), strings.Join(us, ",\n     ")))
+	}
+	c17DefOrdered(w, "c17Groups", "TmplGroup", groupItems)
 	sort.Strings(useSigs)
 	useSigs = slicesCompact(useSigs)
 	hashes = append(hashes, leanRec("digest of the use sites", fmt.Sprintf("%d:%x", len(useSigs), sha256.Sum256([]byte(strings.Join(useSigs, "\n"))))[:24]))
